@@ -242,6 +242,17 @@ func (c *Conc) Unkey(k string) string {
 	return sb.String()
 }
 
+// PartNum maps an abstract part number to a concrete one in 1..10000,
+// order-preserving, with gaps, rotating per tour.
+func (c *Conc) PartNum(n int) int {
+	tables := [][]int{{0, 1, 2, 3, 4, 5, 6, 7, 8, 9}, {0, 1, 137, 138, 2000, 5000, 9000, 10000, 0, 0}, {0, 3, 4999, 5000, 5001, 9998, 9999, 10000, 0, 0}}
+	t := tables[int(uint64(c.salt)%uint64(len(tables)))]
+	if n >= 0 && n < len(t) && t[n] != 0 {
+		return t[n]
+	}
+	return n
+}
+
 // header name / value for an abstract metadata entry
 func metaHeader(name string) string {
 	switch name {
